@@ -2141,10 +2141,16 @@ func (r *Raft) isMember(id string) bool {
 	return ok
 }
 
-// isSingleServerCluster returns true if the current configuration only contains
-// this node as a voting member.
+// isSingleServerCluster returns true if this node is the only voting member
+// of the current configuration. There may be non-voting members in addition.
 func (r *Raft) isSingleServerCluster() bool {
-	return len(r.configuration.Members) == 1 && r.configuration.IsVoter[r.id]
+	voters := 0
+	for _, isVoter := range r.configuration.IsVoter {
+		if isVoter {
+			voters++
+		}
+	}
+	return voters == 1 && r.configuration.IsVoter[r.id]
 }
 
 // pendingConfigurationChange returns true if the current configuration
